@@ -29,7 +29,7 @@ const (
 	bVal   = "value"
 	bNil   = "nil"
 	bRaise = "raise"
-	bNone  = "nil-element" // the element itself is nil
+	bNone  = "nil-element"         // the element itself is nil
 	bWrap  = "wrapped-error-value" // the callee returns a caught error as a plain value (not nil, not raised)
 	bStop  = "raise-StopIterErr"   // the callee raises an error of the kind iterators use to say "exhausted"
 )
